@@ -195,10 +195,10 @@ M('c10-check-then-act', [(CNT, '''        self.actual_count
         }''')], {'C10': r'R10\.[12]'})
 M('c10-shared-cache', [('src/state.rs', '''    next_ordered_call_index: AtomicUsize,
     pub panic_reasons''', '''    next_ordered_call_index: AtomicUsize,
-    pub last_call: std::sync::Mutex<Option<TypeId>>,
+    pub last_call: core::sync::atomic::AtomicPtr<u8>,
     pub panic_reasons'''), ('src/state.rs', '''            next_ordered_call_index: AtomicUsize::new(0),
             panic_reasons''', '''            next_ordered_call_index: AtomicUsize::new(0),
-            last_call: std::sync::Mutex::new(None),
+            last_call: core::sync::atomic::AtomicPtr::new(core::ptr::null_mut()),
             panic_reasons''')], {'C10': r'R10\.3'})
 M('c10-position-plus-one', [('src/call_pattern.rs', 'find_responder_by_call_index(&self.responders, self.call_counter.fetch_add())', 'find_responder_by_call_index(&self.responders, self.call_counter.fetch_add() + 1)')], {'C10': r'R10\.2'})
 M('h-c10-rename-bump', [('src/state.rs', 'pub fn bump_ordered_call_index(&self)', 'pub fn take_next_slot(&self)'), ('src/eval.rs', 'self.shared_state.bump_ordered_call_index()', 'self.shared_state.take_next_slot()')], silent=['C10'])
@@ -597,3 +597,7 @@ M('r5-match-inputs-no-matcher-accepts', [('src/call_pattern.rs', '''            
   {'C01': r'R01\.6', 'C04': r'R04\.8', 'C06': r'R06\.5'})
 M('r5-never-called-total-overwritten', [('src/fn_mocker.rs', '''            total_calls += pattern''', '''            total_calls = pattern''')], {'C03': r'R03\.2'})
 M('r6-assembler-cursor-starts-at-one', [('src/assemble.rs', '''            current_call_index: 0,''', '''            current_call_index: 1,''')], {'C04': r'R04\.1', 'C18': r'R18\.4'})
+M('r8-contains-shifted', [(FM, '''                pattern.ordered_call_index_range.start <= ordered_call_index
+                    && pattern.ordered_call_index_range.end > ordered_call_index''', '''                pattern.ordered_call_index_range.contains(&(ordered_call_index + 1))''')], {'C04': r'R04\.4'})
+M('r8-returner-dropped', [('src/build.rs', '''                Ok(responder) => self.push_responder(responder.into_dyn_responder()),''', '''                Ok(responder) => { let _ = responder; }''')],
+  {'C02': r'R02\.10', 'C12': r'R12\.10', 'C14': r'R14\.5', 'C17': r'R17\.7'})
